@@ -36,7 +36,7 @@ def sub_backend(f):
 
 def is_subs_lock(ev):
     return ev.kind == "call" and short(ev.name) == "lock" and ev.args and any(isinstance(x, tuple) and x and x[0] == "field" and "sub" in str(x[2]) and "HashSet" in str(x[3]) or
-                                                                                (isinstance(x, tuple) and x and x[0] == "field" and x[2] == "subs") for x in walk_expr(ev.args[0]))
+                                                                                (isinstance(x, tuple) and x and x[0] == "field" and "HashSet" in str(x[3])) for x in walk_expr(ev.args[0]))
 
 
 def run(ctx, f, rep):
